@@ -338,7 +338,7 @@ func run(c *runner.Ctx) {
 		execs := 0
 		var mu sync.Mutex
 		_ = mu
-		st := mc.Explore(mc.Options{Bound: sc.bound, MaxExecs: 400000, Stop: func() bool { return poisoned || c.Expired() }, Worker: c.Worker, Workers: c.Workers}, func(cx *mc.Ctx) {
+		st := mc.Explore(mc.Options{Bound: sc.bound, MaxExecs: 1500000, Stop: func() bool { return poisoned || c.Expired() }, Worker: c.Worker, Workers: c.Workers}, func(cx *mc.Ctx) {
 			execs++
 			out := make([]string, 2)
 			wx := w
